@@ -281,14 +281,14 @@ void run_op(gsim::Op op, int t, int i)
             }
             case OP_ADD_TYPED: {
                 Ptr p = std::make_shared<Obj>(newid);
-                int tag = 1 + (op.c & 1);
+                int tag = op.c % 3;  // 0 is Y{}: a value-initialised tag is a tag like any other
                 int e = hbegin(OP_ADD_TYPED, op.a, newid);
                 bool r = H->addObject(name, p, tag);
                 hend(e, r, tag);
                 break;
             }
             case OP_ADD_TYPE: {
-                int tag = 1 + (op.c & 1);
+                int tag = op.c % 3;  // 0 is Y{}: a value-initialised tag is a tag like any other
                 int e = hbegin(OP_ADD_TYPE, op.a, tag);
                 H->addType(name, tag);
                 hend(e, 0);
@@ -341,7 +341,7 @@ void run_op(gsim::Op op, int t, int i)
                 break;
             }
             case OP_FIND_PRED_TYPE: {
-                int tag = 1 + (op.c & 1);
+                int tag = op.c % 3;  // 0 is Y{}: a value-initialised tag is a tag like any other
                 int e = hbegin(OP_FIND_PRED_TYPE, op.b, tag);
                 try {
                     Ptr p = H->findObject(Pred{op.b, thr}, tag);
@@ -355,7 +355,7 @@ void run_op(gsim::Op op, int t, int i)
                 break;
             }
             case OP_CHECK_TYPE: {
-                int tag = 1 + (op.c & 1);
+                int tag = op.c % 3;  // 0 is Y{}: a value-initialised tag is a tag like any other
                 int e = hbegin(OP_CHECK_TYPE, op.a, tag);
                 bool r = static_cast<const SOH*>(H)->checkObjectType(name, tag);
                 hend(e, r);
